@@ -273,6 +273,9 @@ def r5(ctx):
                     if not okg:
                         bad_head.append(p_.describe()[:120])
                     popped = head[1] if head is not None else "?"
+                    # the popped entry itself may be unpacked: heappop returns the head, its third field is the task
+                    if isinstance(n_, ast.Assign) and isinstance(n_.targets[0], ast.Tuple) and len(n_.targets[0].elts) == 3 and norm(n_.value) == "heappop(self.tasks)":
+                        popped = norm(n_.targets[0].elts[2])
                 if e.kind == "return" and isinstance(n_, ast.Return):
                     rv = n_.value
                     elts = rv.elts if isinstance(rv, ast.Tuple) and len(rv.elts) == 2 else None
